@@ -49,7 +49,12 @@ func ConvertListener(l net.Listener) (nl Listener, err error) {
 	if err != nil {
 		return nil, err
 	}
-	return ln, syscall.SetNonblock(ln.fd, true)
+	if err = syscall.SetNonblock(ln.fd, true); err != nil {
+		// do not leak the duplicated descriptor
+		ln.file.Close()
+		return nil, err
+	}
+	return ln, nil
 }
 
 var _ net.Listener = &listener{}
